@@ -11,7 +11,7 @@ open CC.PList (Heap St Hdr PNode Cell nd setNext setData optSetNext upd idsOf da
 open CC.PList
 
 /-- one history step on the pair (destination, source) at the level of raw links -/
-def sstep (p : PS) (op : POp) (m : Mem) : Out × PS × Mem :=
+def sstep (P : Params) (p : PS) (op : POp) (m : Mem) : Out × PS × Mem :=
   match op with
   | .addFirst x => let r := addFirst p.st p.l1 x m; ({ st := some r.1 }, { p with st := r.2.1, l1 := r.2.2.1 }, r.2.2.2)
   | .addLast x => let r := addLast p.st p.l1 x m; ({ st := some r.1 }, { p with st := r.2.1, l1 := r.2.2.1 }, r.2.2.2)
@@ -27,12 +27,13 @@ def sstep (p : PS) (op : POp) (m : Mem) : Out × PS × Mem :=
   | .removeAll => let r := removeAll p.st p.l1 m; ({ st := some r.1, vals := r.2.1 }, { p with st := r.2.2.1, l1 := r.2.2.2.1 }, r.2.2.2.2)
   | .replaceAt x i => let r := replaceAt p.st p.l1 x i m; ({ st := some r.1, val := r.2.1 }, { p with st := r.2.2.1, l1 := r.2.2.2.1 }, r.2.2.2.2)
   | .reverse => let r := reverse p.st p.l1; ({}, { p with st := r.1, l1 := r.2 }, m)
+  | .filterMut => let r := filterMut P.pred p.st p.l1 m; ({ st := some r.1 }, { p with st := r.2.1, l1 := r.2.2.1 }, r.2.2.2)
   | .swapRoles => ({}, { p with l1 := p.l2, l2 := p.l1 }, m)
 
-def srun (p : PS) (ops : List POp) (m : Mem) : List Out × PS × Mem :=
+def srun (P : Params) (p : PS) (ops : List POp) (m : Mem) : List Out × PS × Mem :=
   match ops with
   | [] => ([], p, m)
-  | op :: ops => let r := sstep p op m; let rs := srun r.2.1 ops r.2.2; (r.1 :: rs.1, rs.2.1, rs.2.2)
+  | op :: ops => let r := sstep P p op m; let rs := srun P r.2.1 ops r.2.2; (r.1 :: rs.1, rs.2.1, rs.2.2)
 
 /-- both lists are represented on the shared heap by disjoint sets of nodes, all older than the next serial -/
 structure SInv2 (p : PS) (c1 c2 : List Cell) : Prop where
@@ -54,9 +55,9 @@ theorem SInv2.of_keeps {p : PS} {c1 c2 c1' : List Cell} {s' : St} {l1' : Hdr} (I
 
 
 theorem sstep_addFirst (P : Params) (p : PS) (c1 c2 : List Cell) (x : Nat) (m : Mem) (I : SInv2 p c1 c2) :
-    ∃ c1' c2', SInv2 (sstep p (.addFirst x) m).2.1 c1' c2' ∧
+    ∃ c1' c2', SInv2 (sstep P p (.addFirst x) m).2.1 c1' c2' ∧
       SList.step P (absPair p c1 c2) (.addFirst x) m =
-        ((sstep p (.addFirst x) m).1, absPair (sstep p (.addFirst x) m).2.1 c1' c2', (sstep p (.addFirst x) m).2.2) := by
+        ((sstep P p (.addFirst x) m).1, absPair (sstep P p (.addFirst x) m).2.1 c1' c2', (sstep P p (.addFirst x) m).2.2) := by
   obtain ⟨sf, st⟩ := addFirst_spec p.st p.l1 c1 x m I.rep.r1 I.b1
   simp only [sstep, SList.step, absPair, SList.addFirst_ofList]
   by_cases ha : (m.allocT p.l1.triple).1 = true
@@ -73,9 +74,9 @@ theorem sstep_addFirst (P : Params) (p : PS) (c1 c2 : List Cell) (x : Nat) (m : 
 
 
 theorem sstep_addLast (P : Params) (p : PS) (c1 c2 : List Cell) (x : Nat) (m : Mem) (I : SInv2 p c1 c2) :
-    ∃ c1' c2', SInv2 (sstep p (.addLast x) m).2.1 c1' c2' ∧
+    ∃ c1' c2', SInv2 (sstep P p (.addLast x) m).2.1 c1' c2' ∧
       SList.step P (absPair p c1 c2) (.addLast x) m =
-        ((sstep p (.addLast x) m).1, absPair (sstep p (.addLast x) m).2.1 c1' c2', (sstep p (.addLast x) m).2.2) := by
+        ((sstep P p (.addLast x) m).1, absPair (sstep P p (.addLast x) m).2.1 c1' c2', (sstep P p (.addLast x) m).2.2) := by
   obtain ⟨sf, st⟩ := addLast_spec p.st p.l1 c1 x m I.rep.r1 I.b1
   simp only [sstep, SList.step, absPair, SList.addLast_ofList]
   by_cases ha : (m.allocT p.l1.triple).1 = true
@@ -91,9 +92,9 @@ theorem sstep_addLast (P : Params) (p : PS) (c1 c2 : List Cell) (x : Nat) (m : M
     exact ⟨c1, c2, I, by simp [ha']⟩
 
 theorem sstep_addAt (P : Params) (p : PS) (c1 c2 : List Cell) (x i : Nat) (m : Mem) (I : SInv2 p c1 c2) :
-    ∃ c1' c2', SInv2 (sstep p (.addAt x i) m).2.1 c1' c2' ∧
+    ∃ c1' c2', SInv2 (sstep P p (.addAt x i) m).2.1 c1' c2' ∧
       SList.step P (absPair p c1 c2) (.addAt x i) m =
-        ((sstep p (.addAt x i) m).1, absPair (sstep p (.addAt x i) m).2.1 c1' c2', (sstep p (.addAt x i) m).2.2) := by
+        ((sstep P p (.addAt x i) m).1, absPair (sstep P p (.addAt x i) m).2.1 c1' c2', (sstep P p (.addAt x i) m).2.2) := by
   obtain ⟨se, sf, st⟩ := addAt_spec p.st p.l1 c1 x i m I.rep.r1 I.b1
   simp only [sstep, SList.step, absPair, SList.addAt_ofList, LSeq.addAt, dataOf_length]
   by_cases hi : i < c1.length
@@ -121,9 +122,9 @@ theorem sstep_addAt (P : Params) (p : PS) (c1 c2 : List Cell) (x i : Nat) (m : M
     exact ⟨c1, c2, I, by simp [hi]⟩
 
 theorem sstep_removeAt (P : Params) (p : PS) (c1 c2 : List Cell) (i : Nat) (m : Mem) (I : SInv2 p c1 c2) :
-    ∃ c1' c2', SInv2 (sstep p (.removeAt i) m).2.1 c1' c2' ∧
+    ∃ c1' c2', SInv2 (sstep P p (.removeAt i) m).2.1 c1' c2' ∧
       SList.step P (absPair p c1 c2) (.removeAt i) m =
-        ((sstep p (.removeAt i) m).1, absPair (sstep p (.removeAt i) m).2.1 c1' c2', (sstep p (.removeAt i) m).2.2) := by
+        ((sstep P p (.removeAt i) m).1, absPair (sstep P p (.removeAt i) m).2.1 c1' c2', (sstep P p (.removeAt i) m).2.2) := by
   obtain ⟨se, st⟩ := removeAt_spec p.st p.l1 c1 i m I.rep.r1 I.b1
   simp only [sstep, SList.step, absPair, SList.removeAt_ofList, LSeq.removeAt, dataOf_length]
   by_cases hi : i < c1.length
@@ -145,9 +146,9 @@ theorem sstep_removeAt (P : Params) (p : PS) (c1 c2 : List Cell) (i : Nat) (m : 
     exact ⟨c1, c2, I, by simp [hi]⟩
 
 theorem sstep_removeFirst (P : Params) (p : PS) (c1 c2 : List Cell) (m : Mem) (I : SInv2 p c1 c2) :
-    ∃ c1' c2', SInv2 (sstep p .removeFirst m).2.1 c1' c2' ∧
+    ∃ c1' c2', SInv2 (sstep P p .removeFirst m).2.1 c1' c2' ∧
       SList.step P (absPair p c1 c2) .removeFirst m =
-        ((sstep p .removeFirst m).1, absPair (sstep p .removeFirst m).2.1 c1' c2', (sstep p .removeFirst m).2.2) := by
+        ((sstep P p .removeFirst m).1, absPair (sstep P p .removeFirst m).2.1 c1' c2', (sstep P p .removeFirst m).2.2) := by
   obtain ⟨se, st⟩ := removeFirst_spec p.st p.l1 c1 m I.rep.r1 I.b1
   simp only [sstep, SList.step, absPair, SList.removeFirst_ofList]
   cases hc : c1 with
@@ -162,9 +163,9 @@ theorem sstep_removeFirst (P : Params) (p : PS) (c1 c2 : List Cell) (m : Mem) (I
     simp only [dataOf_cons, LSeq.removeFirst, if_true, h1, h2, h3, k.triple]
 
 theorem sstep_removeLast (P : Params) (p : PS) (c1 c2 : List Cell) (m : Mem) (I : SInv2 p c1 c2) :
-    ∃ c1' c2', SInv2 (sstep p .removeLast m).2.1 c1' c2' ∧
+    ∃ c1' c2', SInv2 (sstep P p .removeLast m).2.1 c1' c2' ∧
       SList.step P (absPair p c1 c2) .removeLast m =
-        ((sstep p .removeLast m).1, absPair (sstep p .removeLast m).2.1 c1' c2', (sstep p .removeLast m).2.2) := by
+        ((sstep P p .removeLast m).1, absPair (sstep P p .removeLast m).2.1 c1' c2', (sstep P p .removeLast m).2.2) := by
   obtain ⟨se, st⟩ := removeLast_spec p.st p.l1 c1 m I.rep.r1 I.b1
   simp only [sstep, SList.step, absPair, SList.removeLast_ofList, LSeq.removeLast]
   rcases eq_nil_or_snoc c1 with hc | ⟨pre, a, hc⟩
@@ -179,9 +180,9 @@ theorem sstep_removeLast (P : Params) (p : PS) (c1 c2 : List Cell) (m : Mem) (I 
     simp
 
 theorem sstep_remove (P : Params) (p : PS) (c1 c2 : List Cell) (x : Nat) (m : Mem) (I : SInv2 p c1 c2) :
-    ∃ c1' c2', SInv2 (sstep p (.remove x) m).2.1 c1' c2' ∧
+    ∃ c1' c2', SInv2 (sstep P p (.remove x) m).2.1 c1' c2' ∧
       SList.step P (absPair p c1 c2) (.remove x) m =
-        ((sstep p (.remove x) m).1, absPair (sstep p (.remove x) m).2.1 c1' c2', (sstep p (.remove x) m).2.2) := by
+        ((sstep P p (.remove x) m).1, absPair (sstep P p (.remove x) m).2.1 c1' c2', (sstep P p (.remove x) m).2.2) := by
   obtain ⟨se, st⟩ := remove_spec p.st p.l1 c1 x m I.rep.r1 I.b1
   simp only [sstep, SList.step, absPair, SList.remove_ofList, LSeq.remove]
   by_cases hx : x ∈ dataOf c1
@@ -200,9 +201,9 @@ theorem sstep_remove (P : Params) (p : PS) (c1 c2 : List Cell) (x : Nat) (m : Me
     exact ⟨c1, c2, I, by simp [hx]⟩
 
 theorem sstep_removeAll (P : Params) (p : PS) (c1 c2 : List Cell) (m : Mem) (I : SInv2 p c1 c2) :
-    ∃ c1' c2', SInv2 (sstep p .removeAll m).2.1 c1' c2' ∧
+    ∃ c1' c2', SInv2 (sstep P p .removeAll m).2.1 c1' c2' ∧
       SList.step P (absPair p c1 c2) .removeAll m =
-        ((sstep p .removeAll m).1, absPair (sstep p .removeAll m).2.1 c1' c2', (sstep p .removeAll m).2.2) := by
+        ((sstep P p .removeAll m).1, absPair (sstep P p .removeAll m).2.1 c1' c2', (sstep P p .removeAll m).2.2) := by
   obtain ⟨se, st⟩ := removeAll_spec p.st p.l1 c1 m I.rep.r1 I.b1
   simp only [sstep, SList.step, absPair, SList.removeAll_ofList, LSeq.removeAll]
   by_cases hc : c1 = []
@@ -214,9 +215,9 @@ theorem sstep_removeAll (P : Params) (p : PS) (c1 c2 : List Cell) (m : Mem) (I :
     simp only [hne, if_false, h1, h2, h3, k.triple, dataOf_nil, dataOf_length]
 
 theorem sstep_replaceAt (P : Params) (p : PS) (c1 c2 : List Cell) (x i : Nat) (m : Mem) (I : SInv2 p c1 c2) :
-    ∃ c1' c2', SInv2 (sstep p (.replaceAt x i) m).2.1 c1' c2' ∧
+    ∃ c1' c2', SInv2 (sstep P p (.replaceAt x i) m).2.1 c1' c2' ∧
       SList.step P (absPair p c1 c2) (.replaceAt x i) m =
-        ((sstep p (.replaceAt x i) m).1, absPair (sstep p (.replaceAt x i) m).2.1 c1' c2', (sstep p (.replaceAt x i) m).2.2) := by
+        ((sstep P p (.replaceAt x i) m).1, absPair (sstep P p (.replaceAt x i) m).2.1 c1' c2', (sstep P p (.replaceAt x i) m).2.2) := by
   obtain ⟨se, st⟩ := replaceAt_spec p.st p.l1 c1 x i m I.rep.r1
   simp only [sstep, SList.step, absPair, SList.replaceAt_ofList, LSeq.replaceAt, dataOf_length]
   by_cases hi : i < c1.length
@@ -239,9 +240,9 @@ theorem sstep_replaceAt (P : Params) (p : PS) (c1 c2 : List Cell) (x i : Nat) (m
     exact ⟨c1, c2, I, by simp [hi]⟩
 
 theorem sstep_reverse (P : Params) (p : PS) (c1 c2 : List Cell) (m : Mem) (I : SInv2 p c1 c2) :
-    ∃ c1' c2', SInv2 (sstep p .reverse m).2.1 c1' c2' ∧
+    ∃ c1' c2', SInv2 (sstep P p .reverse m).2.1 c1' c2' ∧
       SList.step P (absPair p c1 c2) .reverse m =
-        ((sstep p .reverse m).1, absPair (sstep p .reverse m).2.1 c1' c2', (sstep p .reverse m).2.2) := by
+        ((sstep P p .reverse m).1, absPair (sstep P p .reverse m).2.1 c1' c2', (sstep P p .reverse m).2.2) := by
   obtain ⟨r', t, f, fr⟩ := reverse_spec p.st p.l1 c1 I.rep.r1
   simp only [sstep, SList.step, absPair, SList.reverse_ofList]
   refine ⟨c1.reverse, c2, ⟨⟨r', ?_, ?_⟩, ?_, ?_⟩, ?_⟩
@@ -257,9 +258,9 @@ theorem dataOf_drop (cs : List Cell) (i : Nat) : dataOf (cs.drop i) = (dataOf cs
 theorem dataOf_eq_nil (cs : List Cell) : dataOf cs = [] ↔ cs = [] := by simp [dataOf]
 
 theorem sstep_spliceAt (P : Params) (p : PS) (c1 c2 : List Cell) (i : Nat) (m : Mem) (I : SInv2 p c1 c2) :
-    ∃ c1' c2', SInv2 (sstep p (.spliceAt i) m).2.1 c1' c2' ∧
+    ∃ c1' c2', SInv2 (sstep P p (.spliceAt i) m).2.1 c1' c2' ∧
       SList.step P (absPair p c1 c2) (.spliceAt i) m =
-        ((sstep p (.spliceAt i) m).1, absPair (sstep p (.spliceAt i) m).2.1 c1' c2', (sstep p (.spliceAt i) m).2.2) := by
+        ((sstep P p (.spliceAt i) m).1, absPair (sstep P p (.spliceAt i) m).2.1 c1' c2', (sstep P p (.spliceAt i) m).2.2) := by
   obtain ⟨se, so, st⟩ := spliceAt_spec p.st p.l1 p.l2 c1 c2 i m I.rep
   simp only [sstep, SList.step, absPair, SList.spliceAt_ofList, LSeq.spliceAt, dataOf_length, dataOf_eq_nil, Bool.false_eq_true, if_false]
   by_cases h2 : c2 = []
@@ -280,9 +281,9 @@ theorem sstep_spliceAt (P : Params) (p : PS) (c1 c2 : List Cell) (i : Nat) (m : 
       exact ⟨c1, c2, I, by simp [h2, hi]⟩
 
 theorem sstep_splice (P : Params) (p : PS) (c1 c2 : List Cell) (m : Mem) (I : SInv2 p c1 c2) :
-    ∃ c1' c2', SInv2 (sstep p .splice m).2.1 c1' c2' ∧
+    ∃ c1' c2', SInv2 (sstep P p .splice m).2.1 c1' c2' ∧
       SList.step P (absPair p c1 c2) .splice m =
-        ((sstep p .splice m).1, absPair (sstep p .splice m).2.1 c1' c2', (sstep p .splice m).2.2) := by
+        ((sstep P p .splice m).1, absPair (sstep P p .splice m).2.1 c1' c2', (sstep P p .splice m).2.2) := by
   obtain ⟨se, st⟩ := splice_spec p.st p.l1 p.l2 c1 c2 m I.rep
   simp only [sstep, SList.step, absPair, SList.splice_ofList, LSeq.splice, dataOf_eq_nil]
   by_cases h2 : c2 = []
@@ -305,9 +306,9 @@ theorem sinv_after_fail {p : PS} {c1 c2 : List Cell} {s' : St} (I : SInv2 p c1 c
    fun y hy => Nat.lt_of_lt_of_le (I.b1 y hy) hfr, fun y hy => Nat.lt_of_lt_of_le (I.b2 y hy) hfr⟩
 
 theorem sstep_addAllAt (P : Params) (p : PS) (c1 c2 : List Cell) (i : Nat) (m : Mem) (I : SInv2 p c1 c2) :
-    ∃ c1' c2', SInv2 (sstep p (.addAllAt i) m).2.1 c1' c2' ∧
+    ∃ c1' c2', SInv2 (sstep P p (.addAllAt i) m).2.1 c1' c2' ∧
       SList.step P (absPair p c1 c2) (.addAllAt i) m =
-        ((sstep p (.addAllAt i) m).1, absPair (sstep p (.addAllAt i) m).2.1 c1' c2', (sstep p (.addAllAt i) m).2.2) := by
+        ((sstep P p (.addAllAt i) m).1, absPair (sstep P p (.addAllAt i) m).2.1 c1' c2', (sstep P p (.addAllAt i) m).2.2) := by
   obtain ⟨se, so, st⟩ := addAllAt_spec p.st p.l1 p.l2 c1 c2 i m I.rep I.b1 I.b2
   simp only [sstep, SList.step, absPair, SList.addAllAt_ofList, LSeq.addAllAt, dataOf_length, dataOf_eq_nil, Bool.false_eq_true, if_false]
   by_cases h2 : c2 = []
@@ -338,9 +339,9 @@ theorem sstep_addAllAt (P : Params) (p : PS) (c1 c2 : List Cell) (i : Nat) (m : 
       exact ⟨c1, c2, I, by simp [h2, hi]⟩
 
 theorem sstep_addAll (P : Params) (p : PS) (c1 c2 : List Cell) (m : Mem) (I : SInv2 p c1 c2) :
-    ∃ c1' c2', SInv2 (sstep p .addAll m).2.1 c1' c2' ∧
+    ∃ c1' c2', SInv2 (sstep P p .addAll m).2.1 c1' c2' ∧
       SList.step P (absPair p c1 c2) .addAll m =
-        ((sstep p .addAll m).1, absPair (sstep p .addAll m).2.1 c1' c2', (sstep p .addAll m).2.2) := by
+        ((sstep P p .addAll m).1, absPair (sstep P p .addAll m).2.1 c1' c2', (sstep P p .addAll m).2.2) := by
   obtain ⟨se, st⟩ := addAll_spec p.st p.l1 p.l2 c1 c2 m I.rep I.b1 I.b2
   simp only [sstep, SList.step, absPair, SList.addAll_ofList, LSeq.addAll, dataOf_length, dataOf_eq_nil]
   by_cases h2 : c2 = []
@@ -363,16 +364,32 @@ theorem sstep_addAll (P : Params) (p : PS) (c1 c2 : List Cell) (m : Mem) (I : SI
         rw [hl]; exact this
       · simp only [h2, if_false, ha', h1, hm, hl, Bool.false_eq_true]
 
+theorem sstep_filterMut (P : Params) (p : PS) (c1 c2 : List Cell) (m : Mem) (I : SInv2 p c1 c2) :
+    ∃ c1' c2', SInv2 (sstep P p .filterMut m).2.1 c1' c2' ∧
+      SList.step P (absPair p c1 c2) .filterMut m =
+        ((sstep P p .filterMut m).1, absPair (sstep P p .filterMut m).2.1 c1' c2', (sstep P p .filterMut m).2.2) := by
+  obtain ⟨se, st⟩ := filterMut_spec P.pred p.st p.l1 c1 m I.rep.r1 I.b1
+  simp only [sstep, SList.step, absPair, SList.filterMut_ofList, LSeq.filterMut]
+  by_cases hc : c1 = []
+  · rw [se hc]; subst hc
+    exact ⟨[], c2, I, by simp [Mem.freeN]⟩
+  · obtain ⟨h1, h2, k⟩ := st hc
+    refine ⟨c1.filter (fun c => P.pred c.2), c2, SInv2.of_keeps I k (fun y hy => Or.inl (idsOf_filter_subset _ _ y hy)), ?_⟩
+    have hne : dataOf c1 ≠ [] := fun e => hc (List.eq_nil_of_length_eq_zero (by rw [← dataOf_length, e]; rfl))
+    have hl : ((dataOf c1).filter P.pred).length = (c1.filter (fun c => P.pred c.2)).length := by
+      rw [← dataOf_filter, dataOf_length]
+    simp only [hne, if_false, h1, h2, k.triple, dataOf_filter, dataOf_length, hl]
+
 theorem sstep_swapRoles (P : Params) (p : PS) (c1 c2 : List Cell) (m : Mem) (I : SInv2 p c1 c2) :
-    ∃ c1' c2', SInv2 (sstep p .swapRoles m).2.1 c1' c2' ∧
+    ∃ c1' c2', SInv2 (sstep P p .swapRoles m).2.1 c1' c2' ∧
       SList.step P (absPair p c1 c2) .swapRoles m =
-        ((sstep p .swapRoles m).1, absPair (sstep p .swapRoles m).2.1 c1' c2', (sstep p .swapRoles m).2.2) :=
+        ((sstep P p .swapRoles m).1, absPair (sstep P p .swapRoles m).2.1 c1' c2', (sstep P p .swapRoles m).2.2) :=
   ⟨c2, c1, ⟨⟨I.rep.r2, I.rep.r1, fun x hx hx1 => I.rep.disj x hx1 hx⟩, I.b2, I.b1⟩, rfl⟩
 
 /-- **one pointer-level step refines the sequence-level step** and keeps the pair well-formed -/
 theorem sstep_refines (P : Params) (p : PS) (c1 c2 : List Cell) (op : POp) (m : Mem) (I : SInv2 p c1 c2) :
-    ∃ c1' c2', SInv2 (sstep p op m).2.1 c1' c2' ∧
-      SList.step P (absPair p c1 c2) op.toOp m = ((sstep p op m).1, absPair (sstep p op m).2.1 c1' c2', (sstep p op m).2.2) := by
+    ∃ c1' c2', SInv2 (sstep P p op m).2.1 c1' c2' ∧
+      SList.step P (absPair p c1 c2) op.toOp m = ((sstep P p op m).1, absPair (sstep P p op m).2.1 c1' c2', (sstep P p op m).2.2) := by
   cases op with
   | addFirst x => exact sstep_addFirst P p c1 c2 x m I
   | addLast x => exact sstep_addLast P p c1 c2 x m I
@@ -388,17 +405,18 @@ theorem sstep_refines (P : Params) (p : PS) (c1 c2 : List Cell) (op : POp) (m : 
   | removeAll => exact sstep_removeAll P p c1 c2 m I
   | replaceAt x i => exact sstep_replaceAt P p c1 c2 x i m I
   | reverse => exact sstep_reverse P p c1 c2 m I
+  | filterMut => exact sstep_filterMut P p c1 c2 m I
   | swapRoles => exact sstep_swapRoles P p c1 c2 m I
 
 /-- **whole histories**: the pointer-level run produces the outputs and the ledger of the sequence-level run on the
 canonical chains, and ends in a pair that is again represented (hence well-formed, both lists) -/
 theorem srun_refines (P : Params) : ∀ (ops : List POp) (p : PS) (c1 c2 : List Cell) (m : Mem), SInv2 p c1 c2 →
-    ∃ c1' c2', SInv2 (srun p ops m).2.1 c1' c2' ∧
-      SList.run P (absPair p c1 c2) (ops.map POp.toOp) m = ((srun p ops m).1, absPair (srun p ops m).2.1 c1' c2', (srun p ops m).2.2)
+    ∃ c1' c2', SInv2 (srun P p ops m).2.1 c1' c2' ∧
+      SList.run P (absPair p c1 c2) (ops.map POp.toOp) m = ((srun P p ops m).1, absPair (srun P p ops m).2.1 c1' c2', (srun P p ops m).2.2)
   | [], p, c1, c2, m, I => ⟨c1, c2, I, rfl⟩
   | op :: ops, p, c1, c2, m, I => by
     obtain ⟨d1, d2, I', e⟩ := sstep_refines P p c1 c2 op m I
-    obtain ⟨f1, f2, I'', e'⟩ := srun_refines P ops (sstep p op m).2.1 d1 d2 (sstep p op m).2.2 I'
+    obtain ⟨f1, f2, I'', e'⟩ := srun_refines P ops (sstep P p op m).2.1 d1 d2 (sstep P p op m).2.2 I'
     refine ⟨f1, f2, I'', ?_⟩
     simp only [List.map_cons, SList.run, srun, e, e']
 
